@@ -163,6 +163,7 @@ impl Scenario for ServeScenario {
             for f in &self.candidates {
                 let (mut model, _) = PModel::new(&[0]);
                 let mut merged: BTreeMap<u64, ExpTid> = BTreeMap::new();
+                let mut requests_per_tid: BTreeMap<u64, usize> = BTreeMap::new();
                 for o in history {
                     if !model.sessions[0].alive {
                         break;
@@ -175,6 +176,7 @@ impl Scenario for ServeScenario {
                     model = next;
                     if let Some(e) = exp.get(&0) {
                         for (tid, x) in e {
+                            *requests_per_tid.entry(*tid).or_default() += 1;
                             let m = merged.entry(*tid).or_default();
                             for b in &x.seq {
                                 let mut b = b.clone();
@@ -191,6 +193,16 @@ impl Scenario for ServeScenario {
                                 m.ls = x.ls.clone();
                             }
                         }
+                    }
+                }
+                // a transaction id used by several requests of the burst: which answer belongs to which
+                // request cannot be told, and answers that come from a spawned task (a granted
+                // acquireLock) may overtake later ones - the tokens are compared as one unordered batch
+                for (tid, m) in merged.iter_mut() {
+                    if requests_per_tid.get(tid).copied().unwrap_or(0) > 1 && !m.is_stream {
+                        let all: Vec<String> = m.seq.drain(..).flatten().collect();
+                        m.seq = vec![all];
+                        m.single_message = false;
                     }
                 }
                 // answers to requests issued with the id of a stream are mixed into it: counts only
